@@ -334,7 +334,8 @@ func pipeLine(c pipeCfg, o pipeObs) string {
 // the handshake fail (fail=true: the remote's first message is not a version)
 // or complete and be followed by a Disconnect; it reports how many completion
 // signals arrived.
-func runPrestart(inbound bool, n int, fail bool) string {
+func runPrestart(inbound bool, n int, mode string) string {
+	fail := mode == "fail"
 	params := &chaincfg.MainNetParams
 	btcnet := params.Net
 	remoteAddr := &net.TCPAddr{IP: net.ParseIP("10.1.2.3"), Port: 18555}
@@ -360,7 +361,10 @@ func runPrestart(inbound bool, n int, fail bool) string {
 		dones[i] = make(chan struct{}, 4)
 		p.QueueMessage(wire.NewMsgPong(uint64(i)+1), dones[i])
 	}
-	if fail {
+	if mode == "disc" {
+		// Disconnect while the version/verack exchange has not even begun.
+		p.Disconnect()
+	} else if fail {
 		re.Write(encMsg(wire.NewMsgGetAddr(), btcnet))
 	} else {
 		me := wire.NewNetAddressIPPort(net.ParseIP("10.1.2.3"), 18555, 0)
